@@ -46,7 +46,13 @@ impl MemLoader<'_> {
     fn rel(&self, loc: &Locator) -> Option<String> {
         let base = url::Url::parse(self.base).ok()?.to_file_path().ok()?;
         let p = loc.url().to_file_path().ok()?;
-        p.strip_prefix(&base).ok()?.to_str().map(|s| s.to_string())
+        // as a file system would: repeated separators and "." segments do not matter
+        let rel = p.strip_prefix(&base).ok()?;
+        let parts: Vec<String> = rel.components().filter_map(|c| match c {
+            std::path::Component::Normal(s) => s.to_str().map(|x| x.to_string()),
+            _ => None,
+        }).collect();
+        Some(parts.join("/"))
     }
 }
 
